@@ -88,6 +88,17 @@ def evaluate(mod, ctx, cases):
 
 
 def main(prop, tier='quick', seed=0, replay=None):
+    if os.environ.get('XYZV_APICOV'):          # development aid, see harness/apicov.py
+        import apicov
+        apicov.install()
+        try:
+            return _main(prop, tier, seed, replay)
+        finally:
+            apicov.dump()
+    return _main(prop, tier, seed, replay)
+
+
+def _main(prop, tier='quick', seed=0, replay=None):
     t0 = time.time()
     mod = importlib.import_module('props.' + prop.lower())
     ctx = Ctx(prop, tier, seed)
